@@ -1431,11 +1431,17 @@ func (f *Frame) encodeNext(x *ssa.Next, st *State) {
 	}
 	g := f.guard()
 	// ok => key is in the map and not visited, value is the stored one
-	c.assert(implies(and(g, okC), and(not(eq(m.T, "nil")), sel(keys, kC.T), not(sel(visited, kC.T)), eq(vC.T, sel(vals, kC.T)))))
+	valEq := "true"
+	if vT != nil && vT != types.Typ[types.Invalid] {
+		valEq = eq(vC.T, sel(vals, kC.T))
+	}
+	c.assert(implies(and(g, okC), and(not(eq(m.T, "nil")), sel(keys, kC.T), not(sel(visited, kC.T)), valEq)))
 	// !ok => every key has been visited
 	c.usesQuant = true
 	c.assert(implies(and(g, not(okC)), fmt.Sprintf("(forall ((k %s)) (! (=> (and (not (= %s nil)) (select %s k)) (select %s k)) :pattern ((select %s k))))", rs.keySort, m.T, keys, visited, keys)))
-	e.assumeTypeInv(st, vC.T, vT, and(g, okC))
+	if vT != nil && vT != types.Typ[types.Invalid] {
+		e.assumeTypeInv(st, vC.T, vT, and(g, okC))
+	}
 	rs.visited = c.define("visited", fmt.Sprintf("(Array %s Bool)", rs.keySort), ite(okC, store(visited, kC.T, "true"), visited))
 }
 
